@@ -167,6 +167,17 @@ Proof.
   unfold sub_finished. rewrite (H2 ltac:(rewrite (H1 HL); discriminate)), (H1 HL), HL. reflexivity.
 Qed.
 
+(* in particular every subscription ever handed out — including one obtained
+   by a Subscribe that raced with the shutdown — is itself shut down *)
+Theorem racing_subscribe_is_shut_down p i c :
+  treach p -> receiving (t_mode p) = false -> nth_error (t_subs p) i = Some c -> t_phase c = SClosed.
+Proof.
+  intros Hr Hm Hn. pose proof (done_means_all_finished p Hr Hm) as Hf.
+  unfold all_finished in Hf. rewrite forallb_forall in Hf.
+  specialize (Hf c (nth_error_In _ _ Hn)). unfold sub_finished in Hf.
+  destruct (t_phase c); [discriminate|discriminate|reflexivity].
+Qed.
+
 (* no reaper is ever blocked on the unsubscribe channel with nobody left to
    receive from it *)
 Theorem no_stuck_reaper p : treach p -> ~ stuck_reaper p.
